@@ -1,12 +1,14 @@
 SPECIFICATION Spec
 CONSTANTS
-  CMax = 6
+  CMax = 5
   KMin = 2
   KMax = 4
-  TES = {0,1,2,3,4,5,6,7,8,9}
+  TES = {0,1,2,3,4,5,6,7}
   TShift = 1
-  TESp = {0,1,3,6,8}
-  FModes = {"const","gen1","gen2"}
+  TESp = {0,2,5}
+  FModes = {"const","gen2"}
+  EvalRoutes = {"bindown_w","bin_model","out_spectrum","out_tau"}
+  AllOrders = TRUE
   Slip = "none"
   SlipOn = {}
   Export = TRUE
